@@ -231,12 +231,14 @@ def builtin_family(base_id, k=4):
     for i, (rules, sigma) in enumerate(defs):
         p = Program(base_id + i, [("Init", rules)], sigma=sigma, k=k)
         p.bi = ASCII_BI
+        p.ascii_only = True
         progs.append(p)
     # the same over two rule sets with switches
     rules0 = [inf_rule(plus(bi("lowercase")), menu=[D(False, 1, 1)]), inf_rule(plus(bi("uppercase"))), skip_rule(chr_(32))]
     rules1 = [inf_rule(plus(bi("uppercase")), menu=[D(False, 0, 1)]), inf_rule(plus(bi("lowercase"))), skip_rule(chr_(32))]
     p = Program(base_id + len(defs), [("Init", rules0), ("S1", rules1)], sigma=(97, 81, 32), k=k)
     p.bi = ASCII_BI
+    p.ascii_only = True
     progs.append(p)
     return progs
 
@@ -425,6 +427,7 @@ def realistic_family(seed, n, base_id, k=3):
             sigma = sorted(set(keep + rnd.sample(sigma, 9))[:10]) if False else sorted(set(keep) | set(rnd.sample(sigma, max(1, 9 - len(keep)))))
         p = Program(base_id + len(out), [(nm, sets[nm]) for nm in names], sigma=sigma, k=k)
         p.bi = ASCII_BI
+        p.ascii_only = True
         try:
             ok = p.well_formed(ASCII_BI)
         except Exception:
